@@ -255,6 +255,17 @@ def v4(ctx):
             ok = b.dominated_by(d["bb"], eq_true)
             ctx.check(ok, "accept-needs-eq", "returning the state as a match is dominated by eq(x, y) == true",
                       "unify returns a match without EGraph::eq(x, y) having answered true", where_of(b, d["bb"]))
+    if n == 0 and b.local_ty(0) == "()":
+        # out-parameter form (`fn unify(.., out: &mut Vec<MultiState>)`): accepting the state is `out.push(st)`
+        outs = [b.var_names.get(l) for l in range(1, b.argc + 1) if b.local_ty(l).startswith("&mut ") and "Vec<" in b.local_ty(l)]
+        for op in outs:
+            for c in C.result_sinks(b, op):
+                if c.callee.name != "push":
+                    continue
+                n += 1
+                ok = b.dominated_by(c.bb, eq_true)
+                ctx.check(ok, "accept-needs-eq", "pushing the state as a match is dominated by eq(x, y) == true",
+                          "unify pushes a match without EGraph::eq(x, y) having answered true", where_of(b, c.bb))
     ctx.floor("literal match returns in unify", n, 1)
     # what is put into an accumulated result: the answers of a recursive attempt, or a state behind eq == true
     for c in C.result_sinks(b, "out"):
